@@ -88,7 +88,11 @@ DimClauses(r) ==
     <<"PermutationSameEstimates", r.permestdev <= EstTol(r)>>,
     <<"PermutationSameDependence", r.permdepdev <= DepTol(r)>>,
     <<"RefitSameIntervals", r.refitmembers = r.members>>,
-    <<"RefitSameDependence", r.refitdepdev <= DepTol(r)>>
+    (* re-fit of an already fitted model: the per-interval fits start from copies of the untouched *)
+    (* template, so they are bitwise those of the first fit; the dependence functions start from   *)
+    (* their previously fitted parameters and may end in another local optimum - not judged        *)
+    (* (refitdepdev is recorded for information only).                                             *)
+    <<"RefitSameEstimates", r.refitestdev = 0>>
   >>
 
 (* expected call sequence of Distribution.fit: per dimension its own (method, weights), once for *)
